@@ -276,6 +276,17 @@ def init_eval(prog):
             out["state"] = "base URI / referrer / cache_remote are not recorded as given"
         elif "http://reg/one" not in g(r2, "store") or "http://other/" in g(r2, "store"):
             out["state"] = "a second resolver does not start from the registry alone"
+        # the handler table is live: what a caller registers on the resolver object afterwards is what retrieval consults
+        late = []
+        r6 = R("http://g/", {}, handlers={"sch": lambda uri: {"from": "first"}})
+        g(r6, "handlers")["sch"] = lambda uri: late.append(uri) or {"from": "second"}
+        g(r6, "handlers")["new"] = lambda uri: late.append(uri) or {"from": "new"}
+        try:
+            got6 = (g(r6, "resolve_remote")("sch://h/a"), g(r6, "resolve_remote")("new://h/b"))
+        except PyRaise as pr:
+            got6 = "<%s>" % pr.name
+        if got6 != ({"from": "second"}, {"from": "new"}):
+            out["state"] = out["state"] or ("a handler registered on (or replaced in) resolver.handlers after construction is not what retrieval uses: %r" % (got6,))
         # a caller's store that is itself a URIDict is copied, not adopted
         U = ClsRef(ev, prog.cls("_utils.URIDict"))
         theirs_store = U()
